@@ -38,6 +38,8 @@ type c18Build struct {
 	extra  string
 	// message flows: throw node id -> (target process index, target node id, kind)
 	links map[string][]c18Link
+	// behind: task id -> throw events that fire (in this order) once the task is answered
+	behind map[string][]string
 }
 
 type c18Link struct {
@@ -47,7 +49,7 @@ type c18Link struct {
 }
 
 func c18Definitions(c *c18Case) *c18Build {
-	b := &c18Build{links: map[string][]c18Link{}}
+	b := &c18Build{links: map[string][]c18Link{}, behind: map[string][]string{}}
 	var flows []string
 	for i, shape := range c.Execs {
 		p := fmt.Sprintf("p%d", i)
@@ -77,21 +79,34 @@ func c18Definitions(c *c18Case) *c18Build {
 				th := g.Add(gen.Throw, p+"_throwS", "")
 				th.Events = []gen.EventDef{{Type: "message", Ref: "msgS"}}
 				link(th)
+				b.behind[p+"_pre"] = append(b.behind[p+"_pre"], th.ID)
 			}
 			if c.Link == "start2" {
 				th := g.Add(gen.Throw, p+"_throwS2", "")
 				th.Events = []gen.EventDef{{Type: "message", Ref: "msgS2"}}
 				link(th)
+				b.behind[p+"_pre"] = append(b.behind[p+"_pre"], th.ID)
 			}
 			if c.Link == "waitcatch" {
 				th := g.Add(gen.Throw, p+"_throwW", "")
 				th.Events = []gen.EventDef{{Type: "message", Ref: "msgW"}}
 				link(th)
+				b.behind[p+"_pre"] = append(b.behind[p+"_pre"], th.ID)
 			}
-			if c.Link == "catch" || c.Link == "both" {
+			if c.Link == "catch" || c.Link == "both" || c.Link == "catch2" {
 				th := g.Add(gen.Throw, p+"_throwC", "")
 				th.Events = []gen.EventDef{{Type: "signal", Ref: "sigC"}}
 				link(th)
+				b.behind[p+"_pre"] = append(b.behind[p+"_pre"], th.ID)
+			}
+			if c.Link == "catch2" {
+				// a second throw behind a task of its own: its catch event starts listening (and is
+				// registered with the set) only after the first catch event was woken
+				link(g.Add(gen.Task, p+"_pre2", ""))
+				th := g.Add(gen.Throw, p+"_throwC2", "")
+				th.Events = []gen.EventDef{{Type: "signal", Ref: "sigC2"}}
+				link(th)
+				b.behind[p+"_pre2"] = append(b.behind[p+"_pre2"], th.ID)
 			}
 		}
 		// the catching process: last executable process (may be process 0 itself only if single -> use a parallel branch)
@@ -99,7 +114,7 @@ func c18Definitions(c *c18Case) *c18Build {
 		b.graphs = append(b.graphs, g)
 		b.exec = append(b.exec, true)
 	}
-	if c.Link == "catch" || c.Link == "both" {
+	if c.Link == "catch" || c.Link == "both" || c.Link == "catch2" {
 		// dedicated executable process that waits at a catch event
 		g := gen.NewGraph("pc")
 		s := g.Add(gen.Start, "pc_start", "")
@@ -108,12 +123,23 @@ func c18Definitions(c *c18Case) *c18Build {
 		t := g.Add(gen.Task, "pc_t", "")
 		e := g.Add(gen.End, "pc_end", "")
 		g.Connect(s, ce, nil)
-		g.Connect(ce, t, nil)
+		if c.Link == "catch2" {
+			ce2 := g.Add(gen.Catch, "pc_catch2", "")
+			ce2.Events = []gen.EventDef{{Type: "signal", Ref: "sigC2"}}
+			g.Connect(ce, ce2, nil)
+			g.Connect(ce2, t, nil)
+		} else {
+			g.Connect(ce, t, nil)
+		}
 		g.Connect(t, e, nil)
 		b.graphs = append(b.graphs, g)
 		b.exec = append(b.exec, true)
 		b.links["p0_throwC"] = append(b.links["p0_throwC"], c18Link{len(b.graphs) - 1, "pc_catch", "catch"})
 		flows = append(flows, `<bpmn:messageFlow id="MF_c" sourceRef="p0_throwC" targetRef="pc_catch"/>`)
+		if c.Link == "catch2" {
+			b.links["p0_throwC2"] = append(b.links["p0_throwC2"], c18Link{len(b.graphs) - 1, "pc_catch2", "catch"})
+			flows = append(flows, `<bpmn:messageFlow id="MF_c2" sourceRef="p0_throwC2" targetRef="pc_catch2"/>`)
+		}
 	}
 	if c.Link == "waitcatch" {
 		// message flow towards a catch event inside a process that was never instantiated: nothing listens there,
@@ -182,7 +208,7 @@ func c18Cases(tier string, seed uint64) []fw.Case {
 	}
 	combos = append(combos, []string{"trivial", "trivial", "trivial"}, []string{"task", "trivial", "fork"}, []string{"fork", "task", "task"})
 	for ci, ex := range combos {
-		for _, link := range []string{"none", "start", "catch", "both", "start2", "waitcatch"} {
+		for _, link := range []string{"none", "start", "catch", "both", "start2", "waitcatch", "catch2"} {
 			if link != "none" && ex[0] == "trivial" && len(ex) == 1 {
 				// fine: p0 gets the pre task anyway
 			}
@@ -432,8 +458,11 @@ func c18Run(c *c18Case, env *fw.Env, v *fw.V) {
 		}
 		act := p[0]
 		// catch must be listening before the throw's task is answered (stepwise restriction)
-		if act == "p0_pre" && len(p) > 1 {
+		if (act == "p0_pre" || act == "p0_pre2") && len(p) > 1 {
 			act = p[1]
+			if act == "p0_pre2" && len(p) > 2 {
+				act = p[2]
+			}
 		}
 		mu.Lock()
 		tt := reqs[act][answered[act]]
@@ -443,11 +472,10 @@ func c18Run(c *c18Case, env *fw.Env, v *fw.V) {
 		for i, m := range models {
 			if started[i] && m.Pending[act] > 0 {
 				m.Answer(act, nil)
-				if act == "p0_pre" {
+				{
 					// the throw events behind it fire now
-					for th, ls := range b.links {
-						_ = th
-						for _, l := range ls {
+					for _, th := range b.behind[act] {
+						for _, l := range b.links[th] {
 							switch l.kind {
 							case "start":
 								started[l.proc] = true
@@ -511,8 +539,8 @@ func c18Run(c *c18Case, env *fw.Env, v *fw.V) {
 	if n := count("CeaseSet"); n != 1 {
 		v.Violate("cease-set-count", cls, "%d cease-process-set traces after completed waits (%s), expected exactly 1", n, c.Waits)
 	}
-	if n := count("Instantiation"); c.Link != "none" && n != len(c.Execs)+btoi(c.Link == "catch" || c.Link == "both")+instantiations {
-		v.Violate("instantiation-count", cls, "%d instantiation traces, expected %d executable + %d instantiated by message flows", n, len(c.Execs)+btoi(c.Link == "catch" || c.Link == "both"), instantiations)
+	if n := count("Instantiation"); c.Link != "none" && n != len(c.Execs)+btoi(c.Link == "catch" || c.Link == "both" || c.Link == "catch2")+instantiations {
+		v.Violate("instantiation-count", cls, "%d instantiation traces, expected %d executable + %d instantiated by message flows", n, len(c.Execs)+btoi(c.Link == "catch" || c.Link == "both" || c.Link == "catch2"), instantiations)
 	}
 	v.Add("traces", count("Visit"))
 }
